@@ -26,6 +26,7 @@ pub fn profile(name: &str) -> Option<GenFn> {
         "droprace" => genp::droprace,
         "timeout0" => genp::timeout0,
         "stoprace" => genp::stoprace,
+        "bigburst" => genp::bigburst,
         _ => return None,
     })
 }
